@@ -33,6 +33,13 @@ def ellipsis : Str := [58, 58]   -- Constants.IPV6_ELLIPSIS = "::"
 /-- `str.isdigit(c) or (str.isalpha(c) and not is_cjk(d))` -/
 def glued (K : CharClass) (c d : Nat) : Bool := K.isDigit c || (K.isAlpha c && !isCJK d)
 
+/-- the tail of the loop body: unless skipped by an ellipsis check, report the span if some match has exactly it -/
+def emitAt (skip : Bool) (ms : List Span) (start length : Nat) (substring : Str) : List ER :=
+  if skip then []
+  else match srcMatch ms start length with
+    | some v => [⟨start, length, substring, v⟩]
+    | none => []
+
 /-- The second loop of `BaseIpExtractor.extract` / `SequenceExtractor.extract` (`ip = false`): `i` runs over the
 positions, `start = last + 1`.  `rest = n - i` is the structural counter. -/
 def sweepGo (ip : Bool) (K : CharClass) (s : Str) (ms : List Span) : Nat → Nat → Nat → List ER
@@ -50,12 +57,7 @@ def sweepGo (ip : Bool) (K : CharClass) (s : Str) (ms : List Span) : Nat → Nat
               -- the code passes `list(source)[start - 1]` (not `[i + 1]`) to is_cjk; for start = 0 that is source[-1]
               glued K (s.getD (i + 1) 0) ((index s ((start : Int) - 1)).getD 0)) then true
           else false)
-      let here :=
-        if skip then []
-        else match srcMatch ms start length with
-          | some v => [⟨start, length, substring, v⟩]
-          | none => []
-      here ++ sweepGo ip K s ms rest (i + 1) start
+      emitAt skip ms start length substring ++ sweepGo ip K s ms rest (i + 1) start
     else sweepGo ip K s ms rest (i + 1) start
 
 def ipSweep (K : CharClass) (s : Str) (ms : List Span) : List ER :=
